@@ -25,6 +25,15 @@ def fmtRepl : Replication → String
   | .one => "O"
   | .limited n => s!"L{n}"
 
+/-- loop body letters: `m` map, `x` shuffle, `g` group_by, `r` nested replay (others ignored) -/
+def parseBody (s : String) : List BodyOp :=
+  s.toList.filterMap fun c =>
+    match c with
+    | 'm' => some .noop
+    | 'x' | 'g' => some .exchange
+    | 'r' => some .replay
+    | _ => none
+
 def parseOp (w : List String) : Option Op :=
   match w with
   | ["src", o, r] => do pure (.source (← o.toNat?) (← parseRepl r))
@@ -40,7 +49,11 @@ def parseOp (w : List String) : Option Op :=
   | ["bjoin", a, b, o] => do pure (.bjoin (← a.toNat?) (← b.toNat?) (← o.toNat?))
   | ["sink", s, "vec"] => do pure (.sinkVec (← s.toNat?))
   | ["sink", s, _] | ["sink", s] => do pure (.sinkEach (← s.toNat?))
-  | ["iterate", s, a, b] => do pure (.iterate (← s.toNat?) (← a.toNat?) (← b.toNat?))
+  | ["iterate", s, a, b] => do pure (.iterate (← s.toNat?) (← a.toNat?) (← b.toNat?) [])
+  | ["iterate", s, a, b, body] => do pure (.iterate (← s.toNat?) (← a.toNat?) (← b.toNat?) (parseBody body))
+  | ["replay", s, o] => do pure (.replay (← s.toNat?) (← o.toNat?) [])
+  | ["replay", s, o, body] => do
+    pure (.replay (← s.toNat?) (← o.toNat?) ((parseBody body).filter (· != .replay)))
   | _ => none
 
 def coordStr (c : Coord) : String := s!"{c.block}.{c.host}.{c.replica}"
@@ -257,18 +270,49 @@ def handle (c : Case) : Verdict := Id.run do
                        nontrivial := false, tags := ["panic"] }
   | none => pure ()
   let job := b.job
-  let pre := c.ops.filterMap fun w =>
+  let totalReplicas := (blockInfo cfg ⟨0, .unlimited, false⟩).replicas.length
+  let parseKeys (s : String) : List (Nat × Nat) :=
+    ((s.splitOn ",").filterMap fun t =>
+      match t.splitOn ":" with
+      | [k, h] => do
+        let h ← h.toInt?
+        pure (← k.toNat?, if h < 0 then (h + 18446744073709551616).toNat else h.toNat)
+      | _ => none).mergeSort (fun a b => a.1 ≤ b.1)
+  let pre := c.ops.flatMap fun w =>
     match w with
-    | ["isect", a, b] => do pure s!"isect {fmtRepl ((← parseRepl a).intersect (← parseRepl b))}"
-    | ["lost", cores, n, k] => do
-      let cores ← cores.toNat?
-      let n ← n.toNat?
-      let k ← k.toNat?
-      let f := blockInfo (.loc cores) ⟨0, .unlimited, true⟩
-      let t := blockInfo (.loc cores) ⟨1, .limited k, true⟩
-      let orphans := (f.replicas.filter fun p => (consumers f t false p).isEmpty).length
-      pure s!"lost {orphans * (n / cores)}"
-    | _ => none
+    | ["isect", a, b] =>
+      match parseRepl a, parseRepl b with
+      | some a, some b => [s!"isect {fmtRepl (a.intersect b)}"]
+      | _, _ => []
+    | ["lost", cores, n, k] =>
+      match cores.toNat?, n.toNat?, k.toNat? with
+      | some cores, some n, some k =>
+        let f := blockInfo (.loc cores) ⟨0, .unlimited, true⟩
+        let t := blockInfo (.loc cores) ⟨1, .limited k, true⟩
+        let orphans := (f.replicas.filter fun p => (consumers f t false p).isEmpty).length
+        [s!"lost {orphans * (n / cores)}"]
+      | _, _, _ => []
+    -- running-engine probes: `2 * #replicas` source elements, each emitting every key once
+    | ["engine", "gb", keys] =>
+      let to := blockInfo cfg ⟨1, .unlimited, false⟩
+      (parseKeys keys).map fun (k, h) =>
+        let t := to.replicas[h % to.replicas.length]?.getD default
+        s!"engine gb {k} {coordStr t} n={2 * totalReplicas} p={totalReplicas}"
+    | ["engine", "join", keys] =>
+      let to := blockInfo cfg ⟨2, .unlimited, false⟩
+      let line (side : String) (kh : Nat × Nat) : String :=
+        let t := to.replicas[kh.2 % to.replicas.length]?.getD default
+        s!"engine {side} {kh.1} {coordStr t} n={(2 * totalReplicas) * (2 * totalReplicas)} p={totalReplicas}"
+      (parseKeys keys).map (line "join") ++ (parseKeys keys).map (line "join-right")
+    | ["engine", "fwd", r] =>
+      match parseRepl r with
+      | some r =>
+        let f := blockInfo cfg ⟨0, .unlimited, true⟩
+        let t := blockInfo cfg ⟨1, r, false⟩
+        f.replicas.map fun p =>
+          s!"engine fwd {coordStr p} {",".intercalate ((consumers f t false p).map coordStr)}"
+      | none => []
+    | _ => []
   let nh := numHosts cfg
   if nh == 0 then
     return { out := pre ++ ["nohosts"], oracle := none, nontrivial := false, tags := ["nohosts"] }
@@ -281,6 +325,22 @@ def handle (c : Case) : Verdict := Id.run do
   let mut fails : List Fail := []
   for l in implPre do
     match words l with
+    | ["engine", "panic"] | ["engine", "timeout"] => fails := fails ++ [⟨false, s!"the real job failed: {l}"⟩]
+    | ["engine", kind, key, cs, n, p] =>
+      -- one consumer per key, whatever producer replica / host / join side the record came from
+      if (cs.splitOn ",").length ≠ 1 then
+        fails := fails ++ [⟨false, s!"{kind}: key {key} was delivered to several replicas: {cs}"⟩]
+      if p != s!"p={totalReplicas}" then
+        fails := fails ++ [⟨false, s!"{kind}: key {key} seen from {p} producer replicas, expected {totalReplicas}"⟩]
+      let expN := if kind == "gb" then 2 * totalReplicas else (2 * totalReplicas) * (2 * totalReplicas)
+      if n != s!"n={expN}" then
+        fails := fails ++ [⟨false, s!"{kind}: key {key} {n}, expected {expN} records"⟩]
+      if kind == "join-right" then
+        unless implPre.any (fun l' => (words l').take 4 == ["engine", "join", key, cs]) do
+          fails := fails ++ [⟨false, s!"join: the two inputs of key {key} did not meet on one replica"⟩]
+    | ["engine", "fwd", p, cs] =>
+      if (cs.splitOn ",").length ≠ 1 || cs == "" then
+        fails := fails ++ [⟨false, s!"forward: producer {p} delivered to {cs}"⟩]
     | ["lost", n] => if n != "0" then
         fails := fails ++ [⟨false, s!"{n} elements of a finite job were lost"⟩]
     | _ => pure ()
@@ -305,12 +365,16 @@ def handle (c : Case) : Verdict := Id.run do
     | some f, some t => f.replicas.any fun p => orphan f.onlyOne e.fragile t.replicas p
     | _, _ => false
   let hasForward := job.edges.any fun e => e.fragile || (job.blocks.find? (·.id == e.src)).any (·.onlyOne)
+  let engineFwd := (implPre.filter fun l => (words l).take 2 == ["engine", "fwd"]).length
+  if c.ops.any (fun w => w.take 2 == ["engine", "fwd"]) && engineFwd ≠ totalReplicas then
+    fails := fails ++ [⟨false, s!"forward: {engineFwd} of {totalReplicas} producer replicas delivered something"⟩]
   let tags := [match cfg with | .loc _ => "local" | .remote hs => s!"remote{hs.length}",
                s!"blocks{min job.blocks.length 6}"] ++
     (if hasForward then ["forward"] else []) ++
     (if job.edges.any (·.fragile) then ["fragile"] else []) ++
     (if malformed then ["malformed"] else []) ++
     (if usesFallback then ["fallback"] else []) ++
+    (c.ops.filterMap fun w => match w with | "engine" :: k :: _ => some s!"engine-{k}" | _ => none) ++
     (if fails.any (·.orphan) then ["orphan-producer"] else [])
   return { out, oracle, nontrivial := job.blocks.length ≥ 2 && !job.edges.isEmpty, tags }
 
